@@ -2,6 +2,7 @@
 from __future__ import annotations
 
 import ast
+import re
 from typing import List, Set
 
 from ..an import avoiding_path, cut, flows_from_calls, is_method_call, value_alts, yields_at
@@ -303,13 +304,27 @@ def _children(ck: Checker, rule: str = "C17.children") -> None:
             adds.append((n, c))
             it, iv, up = gen.iter, norm(gen.target), norm(elt.slice.upper)
             if isinstance(it, ast.Call) and call_name(it) == "range" and not gen.ifs:
-                a = [norm(x) for x in it.args]
+                # `depth = len(ikey)` hoisted into a loop-local: put back
+                lens_ = {}
+                for d_ in g.nodes.values():
+                    a_ = d_.ast
+                    if d_.kind == "stmt" and isinstance(a_, ast.Assign) and len(a_.targets) == 1 and isinstance(a_.targets[0], ast.Name) and norm(a_.value) == f"len({ik})" and h.id in d_.loops \
+                            and len(scope_of(fn).get(a_.targets[0].id)) == 1:
+                        lens_[a_.targets[0].id] = f"len({ik})"
+
+                def _nl(x):
+                    t_ = norm(x)
+                    for k_, v_ in lens_.items():
+                        t_ = re.sub(rf"(?<![\w.]){re.escape(k_)}(?!\w)", v_, t_)
+                    return t_
+
+                a = [_nl(x) for x in it.args]
                 full = (a == ["1", f"len({ik})"] and up in (iv, f"-{iv}")) or (a == [f"len({ik}) - 1", "0", "-1"] and up == iv)
                 if full:
                     # a key shorter than two components has no proper prefix: skipping it loses nothing
                     short = (f"len({ik}) >= 2", f"len({ik}) > 1")
                     rr = g.reach([d for lab, d in h.succ if lab == "T"], skip_node=lambda x, n=n: x.id == n.id,
-                                 skip_edge=lambda p, l, q: l == "exc" or (p.kind == "test" and l == "F" and norm(p.ast) in short) or (p.kind == "test" and l == "T" and norm(p.ast) in (f"len({ik}) < 2", f"len({ik}) <= 1")))
+                                 skip_edge=lambda p, l, q: l == "exc" or (p.kind == "test" and l == "F" and _nl(p.ast) in short) or (p.kind == "test" and l == "T" and _nl(p.ast) in (f"len({ik}) < 2", f"len({ik}) <= 1")))
                     ok = ok or h.id not in rr
                 else:
                     why = f"bulk prefix collection {norm(c)} does not enumerate every proper prefix {ik}[:1] .. {ik}[:-1]"
